@@ -48,6 +48,7 @@ pub fn run_job(job: &Job) {
     reset_globals();
     CB_COUNT.store(0, Ordering::SeqCst);
     INJECT_AT.store(0, Ordering::SeqCst);
+    crate::log::ARM_FN.store(0, Ordering::SeqCst);
     ev!("e": "reset", "job": job.id, "prog": serde_json::to_value(&job.prog).unwrap(), "inject": job.inject, "mode": job.mode,
         "s0": crate::log::SERIAL.load(Ordering::SeqCst));
     let mut db = new_db(job.prog.clone());
@@ -208,6 +209,11 @@ fn do_read<'db>(db: &'db VDb, op: &Op, n: usize, held: &mut Vec<&'db Val>) {
                 }
                 Err(p) => end_panic(p),
             }
+        }
+        // arm a one-shot user panic at the next body execution of function f (no salsa interaction)
+        "arm" => {
+            crate::log::ARM_FN.store(op.f, Ordering::SeqCst);
+            ev!("e": "ret", "ok": 1, "kind": "", "msg": "", "v": 0, "s": 0, "hs": Vec::<String>::new(), "acc": Vec::<i64>::new(), "ni": 0);
         }
         "accum" => {
             let r = catch_unwind(AssertUnwindSafe(|| accumulated(db, op.f as usize)));
